@@ -10,6 +10,10 @@ PROPS = ["C%02d" % i for i in range(1, 21)]
 
 
 def main(argv=None):
+    import warnings
+
+    warnings.simplefilter("ignore")  # the library under test emits NumPy RuntimeWarnings by design (0/0 cells)
+    os.environ.setdefault("PYTHONWARNINGS", "ignore")
     ap = argparse.ArgumentParser(prog="check")
     ap.add_argument("prop")
     ap.add_argument("--tier", default=os.environ.get("VERIF_TIER", "quick"), choices=["quick", "thorough"])
